@@ -200,6 +200,15 @@ def run(ctx):
         status = D.show(U.payload(p.ret))
         if status == "Verified::All":
             good = parse == ["Ok"] and len(eqs) == 1 and eqs[0][1] and "'sha256').Some.0.String.0).Ok.0" in D.show_atom(eqs[0][0])
+            # the comparison is whole-value equality of the two digests: each operand is the stored (parsed) digest or the computed one,
+            # seen through length-preserving views only (a zip/fold, prefix or sub-slice comparison accepts a truncated stored digest)
+            if good:
+                sides = [D.show(x) for x in eqs[0][0][1:3]]
+                stored = [x for x in sides if "'sha256').Some.0.String.0" in x and "content_hash(" not in x]
+                computed = [x for x in sides if "content_hash(object).Ok.0" in x and "'sha256'" not in x]
+                whole = len(stored) == 1 and len(computed) == 1 and all(WHOLE_VIEW.fullmatch(x) for x in sides)
+                ctx.check(whole, "C03.verify", f"C03.verify:hash-equality:whole-digest:{tag}", w.where(f),
+                          bad_msg=f"Verified::All does not require the whole stored digest to equal the whole computed digest: {sides}")
         else:
             good = status == "Verified::Signatures" and (parse == ["Err"] or (len(eqs) == 1 and not eqs[0][1]))
         ch = [e for e in p.effects if e[0] == f"{FN}::content_hash"]
@@ -224,6 +233,12 @@ def run(ctx):
     ctx.assumptions += ["Ed25519 / SHA-256 strength and the behaviour of mutated events follow from C04/C05 tables plus cryptography; not decided here"]
     ctx.samples += [{"scenario": "m.room.member invite with third_party_invite, v1", "signers": ["event_id"]},
                     {"scenario": "m.room.member join with authorising user, v8+", "signers": ["sender", "authoriser"]}]
+
+
+# a digest operand: Base64::parse(..).Ok.0 / content_hash(object).Ok.0 under views that keep every byte
+WHOLE_VIEW = re.compile(r"(?:(?:\w+::)*(?:as_bytes|as_ref|as_slice|as_inner|into_inner|deref|borrow|clone|to_vec|to_owned|encode|to_string)\()*"
+                        r"(?:Base64::parse\(BTreeMap::get\(BTreeMap::get\(object, 'hashes'\)\.Some\.0\.Object\.0, 'sha256'\)\.Some\.0\.String\.0\)\.Ok\.0"
+                        r"|functions::content_hash\(object\)\.Ok\.0)\)*")
 
 
 def dex_ret(effect):
